@@ -111,6 +111,23 @@ Theorem C01_grounded_refines_semantic :
 Proof. exact grounded_refines_semantic. Qed.
 Print Assumptions C01_grounded_refines_semantic.
 
+(* the same with strict quantifiers on both sides (no hypothesis on the invariants).  Contrapositive = the proved
+   classification used by the correspondence (Corr_C01g bit 13): if the grounded action evaluated strictly is applicable
+   and the strict documented step is not, although nothing conflicts syntactically and no forall variable vanished,
+   then a precondition or an effect instance of the ORIGINAL action reads a fluent that has no value *)
+Theorem C01_grounded_strict_refines_semantic :
+  forall T P tau QT s a args,
+    ground_wf_b tau QT a = true ->
+    env_ok (gcfg T P) tau QT (mk_interp P s []) ->
+    pre_defined (mk_interp P s (zip_params (a_params a) args)) (a_pre a) ->
+    fired false (mk_interp P s (zip_params (a_params a) args)) (a_effs a) <> None ->
+    effects_typed false P s a args ->
+    ground_conflict T P a args = false ->
+    vars_dropped T P a args = false ->
+    ostate_eq (sim_apply_grounded false T P s a args) (spec_step false P s a args).
+Proof. exact grounded_strict_refines_semantic. Qed.
+Print Assumptions C01_grounded_strict_refines_semantic.
+
 (* under the same hypotheses grounding changes nothing at all: the step on the grounded action equals (Leibniz) the
    step of the semantic-level model [sim_apply] with the parameters bound, for either quantifier mode *)
 Theorem C01_grounded_eq_ungrounded :
@@ -161,6 +178,15 @@ Theorem C01_grounded_env_ok_from_tables :
 Proof. exact env_ok_of_tables. Qed.
 Print Assumptions C01_grounded_env_ok_from_tables.
 
+(* the parameter substitution of the grounded model is the C13 model of FNode.substitute: on every expression the
+   ExpressionManager can build (Subst.nf), the Substituter applied to {parameter: constant} computes [psubst] *)
+Require UPV.Walkers.Subst UPV.Proofs.Ground_subst.
+Theorem C01_grounded_substitution_is_substituter :
+  forall sg e, UPV.Walkers.Subst.nf e = true ->
+    UPV.Walkers.Subst.substitute (UPV.Proofs.Ground_subst.pmap sg) e = psubst sg e.
+Proof. exact UPV.Proofs.Ground_subst.psubst_is_substitute. Qed.
+Print Assumptions C01_grounded_substitution_is_substituter.
+
 (* (b) The three deviations of the code from the documented semantics that come from grounding, as witnesses INSIDE the
    model (recorded findings C01-simplified-undefined-read, C01-grounding-syntactic-conflict,
    C01-forall-variable-vanishes).  In each, exactly one hypothesis of C01_grounded_refines_semantic fails. *)
@@ -193,18 +219,17 @@ Theorem C01_grounded_forall_applied_once_refuted :
 Proof. exact grounded_forall_applied_once_ex. Qed.
 Print Assumptions C01_grounded_forall_applied_once_refuted.
 
-(* non-vacuity of the grounded theorems: a parametrised action whose precondition (b(p) and p == p) is really
-   simplified (to b(o)) with a conditional forall increase; every hypothesis holds and the step is applicable *)
+(* non-vacuity of the grounded theorems: the action a_nv(p) of Ground_proofs.v (args_nv = [o0], tau_nv = every variable
+   has type 0) whose precondition (b(p) and p == p) is really simplified (to b(o0)), with a conditional forall
+   increase; every hypothesis of the theorems above holds and the step is applicable *)
 Example C01_grounded_nonvacuous :
-  let args := [VObj 0%N] in
-  let tau := fun _ : N => 0%N in
-  ground_wf_b tau (qt_of P_nv) a_nv = true /\
-  env_ok (gcfg T1 P_nv) tau (qt_of P_nv) (mk_interp P_nv s_nv []) /\
-  step_defined P_nv s_nv a_nv args /\
-  effects_typed false P_nv s_nv a_nv args /\
-  ground_conflict T1 P_nv a_nv args = false /\
-  vars_dropped T1 P_nv a_nv args = false /\
-  (exists g, ground_action T1 P_nv a_nv args = Some g /\ a_pre g = [EFluent 0%N [EObj 0%N]]) /\
-  (exists t, sim_apply_grounded true T1 P_nv s_nv a_nv args = Some t /\
+  ground_wf_b tau_nv (qt_of P_nv) a_nv = true /\
+  env_ok (gcfg T1 P_nv) tau_nv (qt_of P_nv) (mk_interp P_nv s_nv []) /\
+  step_defined P_nv s_nv a_nv args_nv /\
+  effects_typed false P_nv s_nv a_nv args_nv /\
+  ground_conflict T1 P_nv a_nv args_nv = false /\
+  vars_dropped T1 P_nv a_nv args_nv = false /\
+  (exists g, ground_action T1 P_nv a_nv args_nv = Some g /\ a_pre g = [EFluent 0%N [EObj 0%N]]) /\
+  (exists t, sim_apply_grounded true T1 P_nv s_nv a_nv args_nv = Some t /\
              t 0%N [VObj 0%N] = Some (VBool false) /\ t 1%N [] = Some (VNum (zq 2))).
 Proof. exact grounded_nonvacuous. Qed.
